@@ -69,6 +69,25 @@ def entry_facts_of_repo():
     return _entry_facts
 
 
+_expr_fact = None
+
+
+def expr_stmt_const_only() -> bool:
+    global _expr_fact
+    if _expr_fact is None:
+        import ast as _ast
+
+        from translate import c06 as T6
+        from vlib.framework import REPO
+
+        try:
+            T6.body_facts(_ast.parse((REPO / "src" / "mxlpy" / "meta" / "source_tools.py").read_text()))
+            _expr_fact = bool(T6._STMT_FACTS.get("exprConstOnly"))
+        except Exception:  # noqa: BLE001
+            _expr_fact = True
+    return _expr_fact
+
+
 def find_def(tree, fn):
     """the `def` a function object was made from: module-level or nested (factories, decorators), by name and first line"""
     import inspect
@@ -440,6 +459,10 @@ class Encoder:
             return ["retnone"] if s.value is None else ["ret", E(s.value)]
         if isinstance(s, ast.Pass) or (isinstance(s, ast.Expr) and isinstance(s.value, ast.Constant)):
             return ["skip"]
+        if isinstance(s, ast.Expr):
+            self.features.add("expr_stmt")
+            # refused by the repaired code; the unrepaired one skipped every expression statement
+            return ["opaque"] if expr_stmt_const_only() else ["skip"]
         if isinstance(s, (ast.Import, ast.ImportFrom)):
             # function-local imports: `ctx.modules` / `ctx.fns` / `ctx.symbols` of the model (PyStmt.importS)
             self.features.add("local_import")
@@ -1374,6 +1397,43 @@ def t_chain(x):
     y = x
     z = y = 2 * x
     return y
+
+
+def t_cmp_is(a, b, c):
+    return 1.0 if a < b is c else 2.0
+
+
+def t_cmp_isnot(a, b):
+    if a is not b:
+        return a - b
+    return 0.0
+
+
+def t_cmp_in_chain(a, b, c):
+    if a < b in (c, 2.0) < 10.0:
+        return a
+    return b
+
+
+def t_cmp_notin(x):
+    return x if x not in (1.0, 2.0) else -x
+
+
+def t_walrus_stmt(x):
+    (K1 := 3.0)
+    return x * K1
+
+
+def t_call_stmt(x, y):
+    abs(x)
+    print
+    return x + y
+
+
+def t_const_stmt(x):
+    """docstring"""
+    1.0
+    return x * K2
 
 
 def t_chain_first(x):
